@@ -18,7 +18,7 @@ use vcommon::Ctx;
 use crate::cx::*;
 use crate::model::{Act, Cfg, Msg, S};
 
-#[derive(Clone, Debug, PartialEq, Eq, PartialOrd, Ord, Hash)]
+#[derive(Clone, Debug, PartialEq, Eq, PartialOrd, Ord, Hash, serde::Serialize, serde::Deserialize)]
 pub enum REv {
     /// a ReplicateWrite that passed the ClusterActor's sender checks and reached the replicator
     Replicate { tx: u8, first: u8 },
@@ -29,7 +29,7 @@ pub enum REv {
     Restart,
 }
 
-#[derive(Clone, Debug, PartialEq, Eq, PartialOrd, Ord, Hash)]
+#[derive(Clone, Debug, PartialEq, Eq, PartialOrd, Ord, Hash, serde::Serialize, serde::Deserialize)]
 pub struct Projection {
     pub tx_lens: Vec<u8>,
     pub buffer_limit: usize,
@@ -89,7 +89,7 @@ pub fn project(cfg: &Cfg, path: &[(S, Option<Act>)]) -> Vec<Projection> {
     }
     let last = &path.last().unwrap().0;
     (0..n)
-        .filter(|i| !evs[*i].is_empty())
+        .filter(|i| !evs[*i].is_empty() && !cfg.eager.contains(&(*i as u8)))
         .map(|i| Projection {
             tx_lens: cfg.tx_lens.clone(),
             buffer_limit: cfg.buffer_limit,
@@ -101,6 +101,11 @@ pub fn project(cfg: &Cfg, path: &[(S, Option<Act>)]) -> Vec<Projection> {
         })
         .collect()
 }
+
+/// What the real replica did: its log as (transaction, event index), the confirmation count per transaction, and
+/// the answer to every replicated write, in the order of the projection's Replicate events:
+/// (transaction, assigned first sequence, Some(Ok(first sequence in the reply)) | Some(Err) | None = unanswered)
+pub struct RealRun(pub Vec<(u8, u8)>, pub BTreeMap<u8, u8>, pub Vec<(u8, u8, Option<Result<u64, String>>)>);
 
 pub struct ConformResult {
     pub replayed: u64,
@@ -136,7 +141,7 @@ fn tx_for(p: u16, lens: &[u8], tx: u8, first: Option<u8>, count: u8) -> sierradb
     make_tx(p, txid(p, tx as u64, len == 1), &evs, exp, count)
 }
 
-async fn replay_one(r: &mut Real, pr: &Projection) -> Result<(Vec<(u8, u8)>, BTreeMap<u8, u8>), String> {
+async fn replay_one(r: &mut Real, pr: &Projection) -> Result<RealRun, String> {
     if r.next_partition >= PARTS - 1 {
         return Err("out of partitions".into());
     }
@@ -161,7 +166,7 @@ async fn replay_one(r: &mut Real, pr: &Projection) -> Result<(Vec<(u8, u8)>, BTr
             REv::Replicate { tx, first } => {
                 let t = tx_for(p, &pr.tx_lens, *tx, Some(*first), 0);
                 let pr2 = rep.ask(ReplicateWrite { coordinator_ref: coordinator_ref.clone(), coordinator_alive_since: 0, transaction: t }).enqueue().await.map_err(|e| e.to_string())?;
-                pend.push(pr2);
+                pend.push((*tx, *first, pr2));
             }
             REv::LocalAppend { tx } => {
                 // everything sent so far must have been processed before the local append hits the database
@@ -213,7 +218,15 @@ async fn replay_one(r: &mut Real, pr: &Projection) -> Result<(Vec<(u8, u8)>, BTr
     } else {
         let _ = tokio::time::timeout(Duration::from_secs(20), rep.ask(VerifSyncResponse(vec![]))).await;
     }
-    drop(pend);
+    let mut replies = Vec::new();
+    for (tx, first, p) in pend {
+        let r = match tokio::time::timeout(Duration::from_millis(40), p).await {
+            Err(_) => None,
+            Ok(Ok(a)) => Some(Ok(a.first_partition_sequence)),
+            Ok(Err(e)) => Some(Err(e.to_string())),
+        };
+        replies.push((tx, first, r));
+    }
     // the real log
     let mut log = Vec::new();
     let mut counts = BTreeMap::new();
@@ -231,7 +244,7 @@ async fn replay_one(r: &mut Real, pr: &Projection) -> Result<(Vec<(u8, u8)>, BTr
         }
     }
     let _ = rep.stop_gracefully().await;
-    Ok((log, counts))
+    Ok(RealRun(log, counts, replies))
 }
 
 fn with_real<T>(f: impl FnOnce(&mut Real) -> T) -> T {
@@ -254,7 +267,7 @@ fn with_real<T>(f: impl FnOnce(&mut Real) -> T) -> T {
     })
 }
 
-fn replay_blocking(pr: &Projection) -> Result<(Vec<(u8, u8)>, BTreeMap<u8, u8>), String> {
+fn replay_blocking(pr: &Projection) -> Result<RealRun, String> {
     with_real(|r| {
         if r.next_partition >= PARTS - 2 {
             // new database generation
@@ -285,7 +298,7 @@ fn replay_blocking(pr: &Projection) -> Result<(Vec<(u8, u8)>, BTreeMap<u8, u8>),
     })
 }
 
-fn compare(pr: &Projection, real: &(Vec<(u8, u8)>, BTreeMap<u8, u8>)) -> Result<(), String> {
+fn compare(pr: &Projection, real: &RealRun) -> Result<(), String> {
     if real.0 != pr.log {
         return Err(format!("the real replica's log is {:?}, the model's is {:?}", real.0, pr.log));
     }
@@ -301,6 +314,7 @@ fn compare(pr: &Projection, real: &(Vec<(u8, u8)>, BTreeMap<u8, u8>)) -> Result<
 /// deviation of the real replica from the model (below).
 pub struct Witness {
     pub cfg: Cfg,
+    pub cfg_name: String,
     pub last: S,
 }
 
@@ -308,7 +322,7 @@ pub struct Witness {
 /// the model's for that node in the state the witness trace ends in (the other nodes as the model has them;
 /// confirmations the model delivered to this node follow the transaction to wherever it sits) and evaluate the
 /// property there.
-fn judge_deviation(prop: &str, pr: &Projection, real: &(Vec<(u8, u8)>, BTreeMap<u8, u8>), w: &Witness) -> Option<String> {
+fn judge_deviation(prop: &str, pr: &Projection, real: &RealRun, w: &Witness) -> Option<String> {
     let mut s = w.last.clone();
     let node = pr.node as usize;
     let model_log = s.nodes[node].log.clone();
@@ -333,7 +347,25 @@ pub fn run(ctx: &Ctx, prop: &str, projs: &[(Projection, Witness)], max: usize) -
         res.events += pr.events.len() as u64;
         match replay_blocking(pr) {
             Err(e) => vcommon::machinery_fail(&format!("conformance replay failed to run: {e} ({pr:?})")),
-            Ok(real) => match compare(pr, &real) {
+            Ok(real) => {
+              // what a coordinator counts towards its quorum: a replica that answers Ok must store the write at the
+              // sequence it was assigned (C11: an acknowledged write is stored on a quorum - the coordinator's own
+              // copy plus the replicas that said Ok)
+              if prop == "C11" {
+                  for (tx, first, r) in &real.2 {
+                      if let Some(Ok(at)) = r {
+                          let stored_at = real.0.iter().position(|(t, k)| t == tx && *k == 0);
+                          if *at != *first as u64 || stored_at != Some(*first as usize) {
+                              ctx.violation(
+                                  "C11/replica-acknowledges-a-write-it-does-not-store",
+                                  &format!("the real replicator answered Ok (first sequence {at}) to ReplicateWrite(T{tx} @ {first}) but its log afterwards is {:?} (T{tx} {}); its coordinator counts this replica towards the quorum and acknowledges the client although fewer replicas store the write. Events node {} sees in a model trace: {:?} (transaction lengths {:?})", real.0, match stored_at { Some(p) => format!("sits at {p}"), None => "is not stored".into() }, pr.node, pr.events, pr.tx_lens),
+                                  json!({"projection": serde_json::to_value(pr).unwrap(), "real_log": format!("{:?}", real.0)}),
+                              );
+                          }
+                      }
+                  }
+              }
+              match compare(pr, &real) {
                 Ok(()) => {
                     res.agreed += 1;
                     if res.samples.len() < 3 && pr.events.len() >= 3 {
@@ -351,13 +383,14 @@ pub fn run(ctx: &Ctx, prop: &str, projs: &[(Projection, Witness)], max: usize) -
                             ctx.violation(
                                 &format!("{prop}/real-replica-deviates-from-model/{kind}"),
                                 &format!("{v}; the real replicator, given the events node {} sees in a model trace ({:?}; transaction lengths {:?}), ends with the log {:?} (counts {:?}) where the model has {:?}; the other nodes as in the state that trace ends in", pr.node, pr.events, pr.tx_lens, real.0, real.1, pr.log),
-                                json!({"projection": {"node": pr.node, "tx_lens": pr.tx_lens, "buffer_limit": pr.buffer_limit, "events": format!("{:?}", pr.events)}, "real_log": format!("{:?}", real.0), "model_log": format!("{:?}", pr.log)}),
+                                json!({"projection": serde_json::to_value(pr).unwrap(), "witness_configuration": witness.cfg_name, "witness_state": serde_json::to_value(&witness.last).unwrap(), "real_log": format!("{:?}", real.0), "model_log": format!("{:?}", pr.log)}),
                             );
                         }
                         None => deviations.push(format!("{e}; events {:?} (node {}, transaction lengths {:?})", pr.events, pr.node, pr.tx_lens)),
                     }
                 }
-            },
+              }
+            }
         }
     }
     if let Some(d) = deviations.first() {
@@ -395,24 +428,38 @@ pub fn confirm_counterexample(cfg: &Cfg, acts: &[Act]) -> Result<String, String>
     Ok(parts.join("; "))
 }
 
-/// Measures on the real replicator how a catch-up response is applied when the replica's log does not end
-/// where the commit sits on the coordinator: replica log [X] (a local append), catch-up response carrying
-/// T with sequence 0.  Returns true if T is appended (behind X), false if it is refused.
-pub fn probe_catchup_appends_anywhere() -> bool {
-    static CACHE: std::sync::OnceLock<bool> = std::sync::OnceLock::new();
+/// Measures on the real replicator where a catch-up response appends a commit.
+/// Probe 1: replica log [X] by a local append (the replicator's next expected sequence stays 0), catch-up
+/// response carrying T with sequence 0: refused by both sequence-checking variants, appended by "anywhere".
+/// Probe 2: replica log [X] by a replicated write at sequence 0 (next expected sequence 1), catch-up response
+/// carrying T with sequence 0: refused only if the commit's sequence on the coordinator is what is checked.
+pub fn probe_catchup_mode() -> crate::model::CatchupMode {
+    use crate::model::CatchupMode;
+    static CACHE: std::sync::OnceLock<CatchupMode> = std::sync::OnceLock::new();
     *CACHE.get_or_init(|| {
-        let pr = Projection {
-            tx_lens: vec![1, 1],
-            buffer_limit: 1000,
-            node: 0,
-            events: vec![REv::LocalAppend { tx: 1 }, REv::SyncResp { commits: vec![(0, 0, 2)] }],
-            log: vec![],
-            catchup_counts: vec![],
-            entry_at_next: false,
+        let run = |first_event: REv| {
+            let pr = Projection { tx_lens: vec![1, 1], buffer_limit: 1000, node: 0, events: vec![first_event, REv::SyncResp { commits: vec![(0, 0, 2)] }], log: vec![], catchup_counts: vec![], entry_at_next: false };
+            match replay_blocking(&pr) {
+                Ok(RealRun(log, _, _)) => log.iter().any(|(t, _)| *t == 0),
+                Err(e) => vcommon::machinery_fail(&format!("probe of the catch-up semantics failed: {e}")),
+            }
         };
-        match replay_blocking(&pr) {
-            Ok((log, _)) => log.iter().any(|(t, _)| *t == 0),
-            Err(e) => vcommon::machinery_fail(&format!("probe of the catch-up semantics failed: {e}")),
+        let after_local = run(REv::LocalAppend { tx: 1 });
+        let after_replicated = run(REv::Replicate { tx: 1, first: 0 });
+        match (after_local, after_replicated) {
+            (false, false) => CatchupMode::CoordinatorSequence,
+            (false, true) => CatchupMode::ReplicatorNext,
+            (true, true) => CatchupMode::Anywhere,
+            (true, false) => vcommon::machinery_fail("probe of the catch-up semantics: appended after a local append but refused after a replicated one - no known semantics"),
         }
     })
+}
+
+/// `--replay` of a violation found by the conformance replay: the one projection again.
+pub fn replay_projection(ctx: &Ctx, prop: &str, pr: Projection, witness: Option<Witness>) {
+    let w = witness.unwrap_or_else(|| vcommon::machinery_fail("replay file of a deviation carries no witness state"));
+    let r = run(ctx, prop, &[(pr, w)], 1);
+    if ctx.violation_count() == 0 {
+        println!("replay: the real replica agrees with the model on this trace ({} of {} replayed agreed)", r.agreed, r.replayed);
+    }
 }
